@@ -18,6 +18,8 @@ var pathAlphabet = []string{
 	"..x", "x..", ".hidden", "d/.hidden", "...", "d/..x", `""`, `" "`, "d//c.jst", "d/", "d",
 	"nosuch.jst", "d/nosuch.jst", "nodir/x.jst", "ü.jst", "b.jst/x", `"b.jst"`, `"d/c.jst"`,
 	"aaaaaaaaaaaaaaaaaaaaaaaaaaaaaaaaaaaaaaaaaaaaaaaaaaaaaaaaaaaaaaaaaaaaaaaaaaaaaaaaaaaaaaaaaaaaaaaaaaaaaaaaaaaaaaaaaaaaaaaaaaaaaaaaaaaaaaaaaaaaaaaaaaaaaaaaaaaaaaaaaaaaaaaaaaaaaaaaaaaaaaaaaaaaaaaaaaaaaaaaaaaaaaaaaaaaaaaaaaaaaaaaaaaaaaaaaaaaaaaaaaaaaaaaaaaaaaaaaaaaaaaaaaaaaaaaaaaaaaaaa.jst",
+	// look-alikes that a compatibility normalisation (NFKC), a case folding or an unescaping turns into an escape route
+	"\u2025/secret.jst", "\uff0e\uff0e/secret.jst", "\u2024\u2024/secret.jst", "d/\uff0e\uff0e\uff0f\uff0e\uff0e\uff0fsecret.jst", "..\uff0fsecret.jst", "\uff0e\uff0e\uff3csecret.jst", "\u2025/q/other.jst", "..\u2215secret.jst",
 	"..\t", "%2e%2e/secret.jst", "d/c.jst/..", "~/x.jst", "$HOME/x.jst", "d/../../secret.jst", "....//secret.jst",
 }
 
